@@ -373,6 +373,10 @@ class Externals(object):
 class _Uuid(Model):
     clsname = "uuid"
 
+    def to_str(self, interp):
+        interp.ctx.assumed.add("A2:str(uuid.uuid4()) is an unconstrained fresh string")
+        return interp.ctx.string("uuid4", record=False)
+
 
 class _Encoded(Model):
     clsname = "bytes"
